@@ -25,8 +25,8 @@ func zzLE32m(raw []byte, i int) uint32 {
 // defaulted (bool, optional: the float initializer is also a declared graph input)
 func H_C12_model(v *zzverif.T) {
 	n := v.CInt("n")
-	raw := zzverif.Syms[byte](v, "raw", 4*n)
-	fl := zzverif.Syms[float32](v, "f", n)
+	raw := zzverif.Data[byte](v, "raw", 4*n)
+	fl := zzverif.Data[float32](v, "f", n)
 	mk := func() *onnx.ModelProto {
 		a := &onnx.TensorProto{Name: "a", DataType: 6, Dims: []int64{int64(n)}, RawData: append([]byte(nil), raw...)}
 		b := &onnx.TensorProto{Name: "b", DataType: 1, Dims: []int64{1, int64(n)}}
